@@ -192,19 +192,36 @@ PExtList(s, i, acc, empties) ==
 
 ExtLine(s) == PExtList(s, 1, << >>, 0)
 
-(* The extension offers / announcements of a header field.  mal = some     *)
-(* line does not match the lexical (recipient) grammar; the content of     *)
-(* such a field is not asserted.  nontok = some quoted parameter value is  *)
-(* not a token after unescaping (RFC 6455 9.1 forbids it; the extension    *)
-(* NAMES of the field are nevertheless determined).                        *)
+(* The extension offers / announcements of a header field.  A field may    *)
+(* consist of several header LINES; each line is judged on its own:        *)
+(*   mal     some line does not match the lexical (recipient) grammar;     *)
+(*           what such a line offers / announces is not asserted,          *)
+(*   exts    the extensions of all lines (for a malformed line: the        *)
+(*           elements completed before the defect),                        *)
+(*   wfexts  the extensions of the lexically well-formed lines only: they  *)
+(*           are offered / announced whatever the other lines look like    *)
+(*           (an empty line, a trailing comma or a malformed line does not *)
+(*           take away what another line says),                            *)
+(*   malpmd  some malformed line mentions the text permessage-deflate (its *)
+(*           contribution to the negotiation is then open),                *)
+(*   nontok  some quoted parameter value is not a token after unescaping   *)
+(*           (RFC 6455 9.1 forbids it; the extension NAMES of the field    *)
+(*           are nevertheless determined).                                 *)
 RECURSIVE ExtsOf(_)
 ExtsOf(lines) == IF lines = << >> THEN << >>
                  ELSE ExtLine(Head(lines)).exts \o ExtsOf(Tail(lines))
+RECURSIVE WfExtsOf(_)
+WfExtsOf(lines) == IF lines = << >> THEN << >>
+                   ELSE LET x == ExtLine(Head(lines)) IN (IF x.ok THEN x.exts ELSE << >>) \o WfExtsOf(Tail(lines))
+HasSub(s, t) == \E i \in 1..(Len(s) - Len(t) + 1) : SubSeq(s, i, i + Len(t) - 1) = t
+TokPmdText == <<112,101,114,109,101,115,115,97,103,101,45,100,101,102,108,97,116,101>>
 Extensions(lines) ==
   LET es == ExtsOf(lines) IN
   [mal    |-> \E i \in 1..Len(lines) : ~ExtLine(lines[i]).ok,
+   malpmd |-> \E i \in 1..Len(lines) : ~ExtLine(lines[i]).ok /\ HasSub(lines[i], TokPmdText),
    nontok |-> \E i \in 1..Len(es) : \E j \in 1..Len(es[i].params) : ~es[i].params[j].tokv,
-   exts   |-> es]
+   exts   |-> es,
+   wfexts |-> WfExtsOf(lines)]
 
 HasParam(e, k) == \E i \in 1..Len(e.params) : e.params[i].k = k
 HasExt(x, name) == \E i \in 1..Len(x.exts) : x.exts[i].name = name
@@ -221,14 +238,28 @@ TokSNCT      == <<115,101,114,118,101,114,95,110,111,95,99,111,110,116,101,120,1
 TokCNCT      == <<99,108,105,101,110,116,95,110,111,95,99,111,110,116,101,120,116,95,116,97,107,101,111,118,101,114>>
 
 (* permessage-deflate present with both no_context_takeover parameters.    *)
-PmdBoth(x) == \E i \in 1..Len(x.exts) :
-                 x.exts[i].name = TokPmd /\ HasParam(x.exts[i], TokSNCT) /\ HasParam(x.exts[i], TokCNCT)
+PmdBothIn(es) == \E i \in 1..Len(es) :
+                 es[i].name = TokPmd /\ HasParam(es[i], TokSNCT) /\ HasParam(es[i], TokCNCT)
+PmdBoth(x) == PmdBothIn(x.exts)
+HasExtIn(es, name) == \E i \in 1..Len(es) : es[i].name = name
 
 (***************************************************************************)
 (* RFC 4648 section 4 base64: number of octets a string decodes to, -1 if  *)
 (* it is not a base64 encoding (alphabet A-Z a-z 0-9 + /, length a         *)
 (* multiple of four, padding "=" only as the last one or two characters).  *)
 (***************************************************************************)
+(* Canonical encoding (RFC 4648 3.5): the unused low bits of the last       *)
+(* symbol before the padding are zero.  A decoder MAY reject other         *)
+(* spellings; one that accepts them decodes the same octets.               *)
+B64Val(c) == IF c \in 65..90 THEN c - 65 ELSE IF c \in 97..122 THEN c - 71 ELSE IF c \in 48..57 THEN c + 4
+             ELSE IF c = 43 THEN 62 ELSE 63
+B64Canonical(s) ==
+  LET n == Len(s) IN
+  IF n = 0 \/ n % 4 # 0 THEN FALSE
+  ELSE LET pad == IF s[n] = 61 THEN (IF s[n - 1] = 61 THEN 2 ELSE 1) ELSE 0 IN
+       CASE pad = 2 -> B64Val(s[n - 2]) % 16 = 0
+         [] pad = 1 -> B64Val(s[n - 1]) % 4 = 0
+         [] OTHER -> TRUE
 IsB64(c) == IsAlpha(c) \/ IsDigit(c) \/ c \in {43, 47}
 B64DecLen(s) ==
   LET n == Len(s) IN
